@@ -121,6 +121,13 @@ func (r *Recorder) Bind(e *env.Env) {
 		r.ev("hvs " + ank.Render(s) + " [" + strings.Join(parts, " ") + "]")
 		return int64(len(nums))
 	})
+	e.Define("hcb", func(f func()) { r.ev("hcb"); f() })
+	e.Define("heach", func(l []interface{}, f func(interface{})) {
+		r.ev("heach " + fmt.Sprint(len(l)))
+		for _, el := range l {
+			f(el)
+		}
+	})
 	e.Define("pg", func(k interface{}) interface{} {
 		r.mu.Lock()
 		r.gtrace = append(r.gtrace, "pg "+ank.Render(k))
@@ -398,8 +405,8 @@ func Judge(prog []gen.Stmt, real Real) Verdict {
 	var firstWhy string
 	var firstModel refmodel.Outcome
 	sawUnspec := ""
-	for bits := 0; bits < 16; bits++ {
-		fl := refmodel.Flags{LoopPerIter: bits&1 != 0, TrySeparate: bits&2 != 0, FinallyOnAbrupt: bits&4 != 0, DeferErrLast: bits&8 != 0}
+	for bits := 0; bits < 32; bits++ {
+		fl := refmodel.Flags{LoopPerIter: bits&1 != 0, TrySeparate: bits&2 != 0, FinallyOnAbrupt: bits&4 != 0, DeferErrLast: bits&8 != 0, StrayControlNoop: bits&16 != 0}
 		m := refmodel.Run(prog, fl)
 		if m.Unspec != "" {
 			sawUnspec = m.Unspec
@@ -423,8 +430,8 @@ func Judge(prog []gen.Stmt, real Real) Verdict {
 		try, zps bool
 	}
 	for _, fs := range []fset{{"try-catches-control-signals", true, false}, {"zero-param-spread-ignores-operands", false, true}, {"try-catches-control-signals+zero-param-spread-ignores-operands", true, true}} {
-		for bits := 0; bits < 16; bits++ {
-			fl := refmodel.Flags{LoopPerIter: bits&1 != 0, TrySeparate: bits&2 != 0, FinallyOnAbrupt: bits&4 != 0, DeferErrLast: bits&8 != 0,
+		for bits := 0; bits < 32; bits++ {
+			fl := refmodel.Flags{LoopPerIter: bits&1 != 0, TrySeparate: bits&2 != 0, FinallyOnAbrupt: bits&4 != 0, DeferErrLast: bits&8 != 0, StrayControlNoop: bits&16 != 0,
 				TryCatchesControl: fs.try, ZeroParamSpread: fs.zps}
 			m := refmodel.Run(prog, fl)
 			if !m.UsedFinding {
